@@ -14,6 +14,7 @@ import (
 	"sort"
 	"strconv"
 	"strings"
+	"sync"
 
 	"golang.org/x/tools/go/ssa"
 )
@@ -25,31 +26,32 @@ type LoopC struct {
 	Finger   string // expected induction/range variable name (structural fingerprint)
 }
 type FnContract struct {
-	Key      string // "<pkgpath>.<name>"
-	Pkg      string
-	Name     string
-	File     string
-	Requires []string
-	Ensures  []string
-	Panics   []string // function panics (explicitly) iff the disjunction holds
-	HasPanics bool
-	OnPanic  []string
-	Assigns  []string
-	HasAssigns bool
-	Modular  bool
-	Trusted  bool
-	Lemma    bool
-	Props    []string
-	Loops    map[int]*LoopC
-	Cases    []string // case split expressions (each an assumption; obligations named @case)
-	Pure     []string
-	Harness  string            // engine-built input state (e.g. flat-RAM CPU)
-	HArgs    map[string]string // role -> parameter name
-	Ops      string            // "all" or comma list of opcodes for harnesses that enumerate op
-	MayPanic bool
+	Key         string // "<pkgpath>.<name>"
+	Pkg         string
+	Name        string
+	File        string
+	Requires    []string
+	Ensures     []string
+	Panics      []string // function panics (explicitly) iff the disjunction holds
+	HasPanics   bool
+	OnPanic     []string
+	Assigns     []string
+	HasAssigns  bool
+	Modular     bool
+	Trusted     bool
+	Lemma       bool
+	Props       []string
+	Loops       map[int]*LoopC
+	Cases       []string // case split expressions (each an assumption; obligations named @case)
+	Pure        []string
+	Harness     string            // engine-built input state (e.g. flat-RAM CPU)
+	HArgs       map[string]string // role -> parameter name
+	Ops         string            // "all" or comma list of opcodes for harnesses that enumerate op
+	MayPanic    bool
+	ModularSym  bool                // modular only at call sites whose string / slice arguments have symbolic lengths
 	SiteAsserts map[string][]string // call site -> assertions that must hold when the call is made
-	Split    string // "<expr> <lo>..<hi>": ensures obligations are split by the value of expr
-	NoSafety bool              // implicit runtime-panic obligations are assumed (proved under another property)
+	Split       string              // "<expr> <lo>..<hi>": ensures obligations are split by the value of expr
+	NoSafety    bool                // implicit runtime-panic obligations are assumed (proved under another property)
 }
 
 var clauseKW = map[string]bool{"requires": true, "ensures": true, "panics": true, "onpanic": true, "assigns": true,
@@ -97,6 +99,24 @@ func (w *World) parseContractFile(pkgPath, file string) {
 		fields := strings.Fields(t)
 		kw := fields[0]
 		rest := strings.TrimSpace(strings.TrimPrefix(t, kw))
+		if kw == "define" {
+			// define NAME(p1, p2) body — textual macro, expanded (with parenthesised arguments) before parsing
+			op, cp := strings.IndexByte(rest, '('), strings.IndexByte(rest, ')')
+			if op <= 0 || cp < op {
+				fail("%s:%d: malformed define", file, ln+1)
+			}
+			m := &macroDef{Name: strings.TrimSpace(rest[:op]), Body: strings.TrimSpace(rest[cp+1:])}
+			for _, pn := range strings.Split(rest[op+1:cp], ",") {
+				if pn = strings.TrimSpace(pn); pn != "" {
+					m.Params = append(m.Params, pn)
+				}
+			}
+			macroMu.Lock()
+			macros[m.Name] = m
+			macroMu.Unlock()
+			lastClause = &m.Body
+			continue
+		}
 		if kw == "func" || kw == "lemma" {
 			cur = &FnContract{Pkg: pkgPath, Name: rest, Key: pkgPath + "." + rest, File: file, Loops: map[int]*LoopC{}, Lemma: kw == "lemma"}
 			if kw == "lemma" {
@@ -117,7 +137,7 @@ func (w *World) parseContractFile(pkgPath, file string) {
 			lastClause = nil
 			continue
 		}
-		if cur == nil {
+		if cur == nil && (clauseKW[kw] || lastClause == nil) {
 			fail("%s:%d: clause outside a func block: %s", file, ln+1, t)
 		}
 		if !clauseKW[kw] {
@@ -166,6 +186,7 @@ func (w *World) parseContractFile(pkgPath, file string) {
 			lastClause = nil
 		case "modular":
 			cur.Modular = true
+			cur.ModularSym = rest == "symbolic"
 			lastClause = nil
 		case "nosafety":
 			cur.NoSafety = true
@@ -333,8 +354,110 @@ func (w *World) resolveFn(c *FnContract) *ssa.Function {
 	return p.Func(name)
 }
 
+// ---- macros ----
+type macroDef struct {
+	Name   string
+	Params []string
+	Body   string
+}
+
+var macros = map[string]*macroDef{}
+var macroMu sync.Mutex
+
+func isIdentByte(c byte) bool {
+	return c == '_' || (c >= 'a' && c <= 'z') || (c >= 'A' && c <= 'Z') || (c >= '0' && c <= '9')
+}
+
+// replaceIdent replaces whole-identifier occurrences of name (not preceded by '.') outside string literals
+func replaceIdent(s, name, by string) string {
+	var out strings.Builder
+	inStr := false
+	for i := 0; i < len(s); {
+		if s[i] == '"' {
+			inStr = !inStr
+		}
+		if !inStr && strings.HasPrefix(s[i:], name) && (i == 0 || (!isIdentByte(s[i-1]) && s[i-1] != '.')) && (i+len(name) == len(s) || !isIdentByte(s[i+len(name)])) {
+			out.WriteString(by)
+			i += len(name)
+			continue
+		}
+		out.WriteByte(s[i])
+		i++
+	}
+	return out.String()
+}
+
+func expandMacros(s string) string {
+	macroMu.Lock()
+	defer macroMu.Unlock()
+	for depth := 0; depth < 16; depth++ {
+		changed := false
+		for _, m := range macros {
+			for {
+				i := findCall(s, m.Name)
+				if i < 0 {
+					break
+				}
+				// matching parenthesis
+				j, d := i+len(m.Name), 0
+				for ; j < len(s); j++ {
+					if s[j] == '(' {
+						d++
+					} else if s[j] == ')' {
+						d--
+						if d == 0 {
+							break
+						}
+					}
+				}
+				if j >= len(s) {
+					fail("contract: unbalanced macro call %s in %q", m.Name, s)
+				}
+				args := splitTop(s[i+len(m.Name)+1:j], ',')
+				if len(m.Params) == 0 {
+					args = nil
+				}
+				if len(args) != len(m.Params) {
+					fail("contract: macro %s expects %d arguments in %q", m.Name, len(m.Params), s)
+				}
+				body := m.Body
+				// two-phase substitution so that arguments mentioning parameter names are not re-substituted
+				for k, pn := range m.Params {
+					body = replaceIdent(body, pn, fmt.Sprintf("\x00%d\x00", k))
+				}
+				for k := range m.Params {
+					body = strings.ReplaceAll(body, fmt.Sprintf("\x00%d\x00", k), "("+strings.TrimSpace(args[k])+")")
+				}
+				s = s[:i] + "(" + body + ")" + s[j+1:]
+				changed = true
+			}
+		}
+		if !changed {
+			return s
+		}
+	}
+	fail("contract: macro expansion does not terminate in %q", s)
+	return s
+}
+
+// findCall: index of "NAME(" as a whole identifier
+func findCall(s, name string) int {
+	for from := 0; ; {
+		i := strings.Index(s[from:], name+"(")
+		if i < 0 {
+			return -1
+		}
+		i += from
+		if i == 0 || (!isIdentByte(s[i-1]) && s[i-1] != '.') {
+			return i
+		}
+		from = i + 1
+	}
+}
+
 // ---- implication sugar: A ==> B  becomes imp(A, B) ----
 func rewriteImplies(s string) string {
+	s = expandMacros(s)
 	parts := splitTop(s, ',')
 	for i, p := range parts {
 		parts[i] = rewriteImpliesOne(p)
@@ -430,16 +553,16 @@ type TV struct {
 }
 
 type CEnv struct {
-	x      *Exec
-	pre    *State
-	post   *State
-	pkg    string // package path in whose scope names resolve
-	names  func(name string, old bool) (Value, types.Type, bool)
-	bound  map[string]TV
-	useOld bool
-	fn     *ssa.Function
+	x         *Exec
+	pre       *State
+	post      *State
+	pkg       string // package path in whose scope names resolve
+	names     func(name string, old bool) (Value, types.Type, bool)
+	bound     map[string]TV
+	useOld    bool
+	fn        *ssa.Function
 	extraLocs []Ptr
-	frame  *Frame
+	frame     *Frame
 }
 
 func (e *CEnv) state() *State {
@@ -675,6 +798,16 @@ func (e *CEnv) eval(ex ast.Expr) TV {
 			return tv
 		}
 		if e.names != nil {
+			// address-taken local: the value currently stored in it (a debug binding of the same name may be stale)
+			if v, t, ok := e.names("&"+n.Name, e.useOld); ok && !e.useOld {
+				if p, isP := v.(Ptr); isP && p.Obj != nil {
+					if pt, isPT := t.Underlying().(*types.Pointer); isPT {
+						if _, live := e.state().Heap[p.Obj.ID]; live {
+							return TV{x.load(e.state(), p), pt.Elem()}
+						}
+					}
+				}
+			}
 			if v, t, ok := e.names(n.Name, e.useOld); ok {
 				return TV{v, t}
 			}
@@ -1013,6 +1146,16 @@ func (e *CEnv) call(n *ast.CallExpr) TV {
 				return TV{Scalar{Const(64, uint64(v.Len))}, types.Typ[types.Int]}
 			}
 			fail("contract: len of %T", a.V)
+		case "builderlen":
+			// builderlen(s): bytes held by a strings.Builder (modelled as a counter)
+			var bp Ptr
+			switch id0 := n.Args[0].(type) {
+			case *ast.Ident:
+				bp = e.loc(id0)
+			default:
+				bp = e.eval(n.Args[0]).V.(Ptr)
+			}
+			return TV{Scalar{x.builderLen(e.state(), bp)}, types.Typ[types.Int]}
 		case "has":
 			m := e.deref(e.eval(n.Args[0]))
 			mv, ok := m.V.(MapV)
@@ -1377,7 +1520,17 @@ func (e *CEnv) loc(ex ast.Expr) Ptr {
 		return Ptr{Obj: sv.Obj, Path: sv.Base}
 	case *ast.StarExpr:
 		tv := e.eval(n.X)
-		return tv.V.(Ptr)
+		hp := tv.V.(Ptr)
+		// *p with a slice pointee: the header and the backing store (append writes into spare capacity)
+		if pt, ok := tv.T.Underlying().(*types.Pointer); ok && hp.Obj != nil {
+			if _, isSl := pt.Elem().Underlying().(*types.Slice); isSl {
+				if sv, ok2 := e.x.load(e.post, hp).(SliceV); ok2 && sv.Obj != nil {
+					e.extraLocs = append(e.extraLocs, hp)
+					return Ptr{Obj: sv.Obj, Path: sv.Base}
+				}
+			}
+		}
+		return hp
 	case *ast.Ident:
 		// address-taken local: "&name" in frame names; pointer parameter: the pointee
 		if e.names != nil {
